@@ -210,6 +210,45 @@ for cfg in _snap.values():
                 {"residues": cfg[0], "models": cfg[1], "extra": list(cfg[-1])}, lambda cfg=cfg: reread_case(cfg))
 
 
+def large_case(flavour, n_res):
+    """a structure large enough for the dictionary-based struct_conn matcher (rows(struct_conn) * rows(atom_site) > 4e6):
+    hetero residues of 2 atoms each, every residue bonded to the next one, the first atom of the model included"""
+    n = 2 * n_res
+    a = struc.AtomArray(n)
+    a.chain_id[:] = "A"
+    a.res_id[:] = np.repeat(np.arange(1, n_res + 1), 2)
+    a.ins_code[:] = ""
+    a.res_name[:] = "LIG"
+    a.hetero[:] = True
+    a.atom_name[:] = np.tile(["C1", "O1"], n_res)
+    a.element[:] = np.tile(["C", "O"], n_res)
+    a.coord = np.arange(n * 3, dtype=np.float32).reshape(n, 3) / 10
+    bonds = [(2 * r, 2 * r + 1, 1) for r in range(n_res)] + [(2 * r, 2 * r + 2, 1) for r in range(n_res - 1)]
+    a.bonds = struc.BondList(n, np.array(bonds))
+    f = pdbx.CIFFile() if flavour == "cif" else pdbx.BinaryCIFFile()
+    pdbx.set_structure(f, a, include_bonds=True)
+    if flavour == "cif":
+        g = pdbx.CIFFile.deserialize(f.serialize())
+    else:
+        s = io.BytesIO()
+        f.write(s)
+        s.seek(0)
+        g = pdbx.BinaryCIFFile.read(s)
+    with warnings.catch_warnings():
+        warnings.simplefilter("ignore")
+        b = pdbx.get_structure(g, model=1, include_bonds=True)
+    want, got = a.bonds.as_set(), b.bonds.as_set()
+    if want != got:
+        return f"{n} atoms / {len(bonds)} bonds ({flavour}): lost {sorted(want - got)[:4]}, invented {sorted(got - want)[:4]}"
+    return same(a, b, ())
+
+
+for flavour in ("cif", "bcif"):
+    for n_res in ((60, 1600) if not R.thorough else (60, 1600, 2400)):
+        R.check("write-read cycle returns an equal structure", f"large structure with inter-residue bonds {flavour}", {"residues": n_res, "flavour": flavour},
+                lambda flavour=flavour, n_res=n_res: large_case(flavour, n_res))
+
+
 # string annotations with special characters: text and binary flavour must agree with the input
 SPECIAL = ["O5'", "5' cap", 'say "x"', "a b", "_lead", "#x", ";x", "data_1", "it's a", "N"]
 
